@@ -403,10 +403,10 @@ theorem Codec.go_withGoTime : Codec.go.withGoTime = Codec.go := rfl
 
 /-- the duration half of `Codec.Valid` -/
 structure Codec.DurValid (C : Codec) : Prop where
-  fmt_dur : ∀ d : Int, d.natAbs ≤ durMax.toNat →
+  fmt_dur : ∀ d : Int, DurDom d →
     ∃ q : Nat, C.fmtDur d = decText (decide (d < 0)) q ∧ q * 10000 ≤ d.natAbs + 5000 ∧ d.natAbs ≤ q * 10000 + 5000
-  parse_dur : ∀ (neg : Bool) (q : Nat), q ≤ 100000000000 →
-    ∃ n : Nat, C.parseDur (decText neg q) = some (if neg then -(n : Int) else n) ∧ n ≤ q * 10000 ∧ q * 10000 ≤ n + 1
+  parse_dur : ∀ (neg : Bool) (q : Nat), q ≤ 100000000000 → (neg = true → 0 < q) →
+    ∃ n : Nat, C.parseDur (decText neg q) = some (if neg then -(n : Int) else n) ∧ n ≤ q * 10000 + 1 ∧ q * 10000 ≤ n + 1
 
 /-- with the Go time layout only the float envelope remains to be assumed -/
 theorem Codec.withGoTime_valid {D : Codec} (h : D.DurValid) : D.withGoTime.Valid where
